@@ -374,4 +374,1706 @@ impl Model for GenModel {
     }
 }
 
-// @@NEXT@@
+// ------------------------------------------------------------------------------------------------------------------
+// oracles
+// ------------------------------------------------------------------------------------------------------------------
+/// C06 (world-line consistency, periodicity, `verify` agrees) + C07 (legality) + C11 n + C12 (n <= slots)
+fn check_config<M: OpContainer>(m: &M, state: &[bool], mdl: &dyn Model) -> Result<(), String> {
+    let s = scan(m);
+    if state.len() != m.get_nvars() {
+        return Err(format!("C06 state has {} spins, container {} variables", state.len(), m.get_nvars()));
+    }
+    let consistent = match propagate(&s, state) {
+        Err(p) => Err(format!("C06 op at p={} ({:?}) does not meet its recorded inputs when the reported state {} is propagated", p, s[p].as_ref().unwrap(), bits(state))),
+        Ok(states) => {
+            let fin = states.last().unwrap();
+            if fin != state {
+                Err(format!("C06 propagation ends in {} not in the reported state {}", bits(fin), bits(state)))
+            } else {
+                Ok(())
+            }
+        }
+    };
+    let lib = catch(|| m.verify(state));
+    match (&consistent, &lib) {
+        (Ok(()), Ok(true)) => {}
+        (Ok(()), other) => return Err(format!("C06 OpContainer::verify(state) answers {:?} on a consistent configuration", other)),
+        (Err(e), Ok(true)) => return Err(format!("{}; and OpContainer::verify(state) answers true", e)),
+        (Err(e), _) => return Err(e.clone()),
+    }
+    for op in s.iter().flatten() {
+        if op.bond >= mdl.nbonds() {
+            return Err(format!("C07 p={} bond {} out of range {}", op.p, op.bond, mdl.nbonds()));
+        }
+        let (vars, c) = mdl.edge(op.bond);
+        if vars != op.vars {
+            return Err(format!("C07 p={} bond {} vars {:?} but the bond acts on {:?}", op.p, op.bond, op.vars, vars));
+        }
+        if c != op.constant {
+            return Err(format!("C07 p={} bond {} constant flag {} but bond says {}", op.p, op.bond, op.constant, c));
+        }
+        if op.ins.len() != vars.len() || op.outs.len() != vars.len() {
+            return Err(format!("C07 p={} wrong number of values", op.p));
+        }
+        if op.diag != (op.ins == op.outs) {
+            return Err(format!("C07 p={} tag diagonal={} but ins {} outs {}", op.p, op.diag, bits(&op.ins), bits(&op.outs)));
+        }
+        let w = mdl.weight(op.bond, &op.ins, &op.outs);
+        if !(w > 0.0) {
+            return Err(format!("C07 p={} bond {} {}->{} has matrix element {}", op.p, op.bond, bits(&op.ins), bits(&op.outs), w));
+        }
+    }
+    let n = occupied(&s).len();
+    if m.get_n() != n {
+        return Err(format!("C11 get_n {} but {} occupied slots", m.get_n(), n));
+    }
+    if n > m.get_cutoff() {
+        return Err("C12 more ops than slots".into());
+    }
+    Ok(())
+}
+
+fn prev_var(s: &[Option<SOp>], p: usize, v: usize) -> Option<PRel> {
+    (0..p).rev().find_map(|q| s[q].as_ref().and_then(|o| o.vars.iter().position(|x| *x == v).map(|relv| PRel { p: q, relv })))
+}
+fn next_var(s: &[Option<SOp>], p: usize, v: usize) -> Option<PRel> {
+    (p + 1..s.len()).find_map(|q| s[q].as_ref().and_then(|o| o.vars.iter().position(|x| *x == v).map(|relv| PRel { p: q, relv })))
+}
+
+/// C11: every navigation getter of the container equals what a scan of the slots gives (panics of a getter are answers too)
+fn check_nav<M: LoopUpdater>(m: &M, nbonds: usize) -> Result<(), String> {
+    match catch(|| check_nav_inner(m, nbonds)) {
+        Ok(r) => r,
+        Err(e) => Err(format!("C11 a navigation getter panicked: {}", e)),
+    }
+}
+fn check_nav_inner<M: LoopUpdater>(m: &M, nbonds: usize) -> Result<(), String> {
+    let s = scan(m);
+    let occ = occupied(&s);
+    let nvars = m.get_nvars();
+    if m.get_n() != occ.len() {
+        return Err(format!("C11 get_n {} vs scan {}", m.get_n(), occ.len()));
+    }
+    if m.get_first_p() != occ.first().cloned() || m.get_last_p() != occ.last().cloned() {
+        return Err(format!("C11 first/last p {:?}/{:?} vs scan {:?}/{:?}", m.get_first_p(), m.get_last_p(), occ.first(), occ.last()));
+    }
+    for b in 0..nbonds + 2 {
+        let c = s.iter().flatten().filter(|o| o.bond == b).count();
+        if m.get_count(b) != c {
+            return Err(format!("C11 get_count({}) = {} vs scan {}", b, m.get_count(b), c));
+        }
+    }
+    for v in 0..nvars {
+        let f = (0..s.len()).find_map(|q| s[q].as_ref().and_then(|o| o.vars.iter().position(|x| *x == v).map(|relv| PRel { p: q, relv })));
+        let l = prev_var(&s, s.len(), v);
+        if m.get_first_p_for_var(v) != f || m.get_last_p_for_var(v) != l {
+            return Err(format!("C11 var {} first/last {:?}/{:?} vs scan {:?}/{:?}", v, m.get_first_p_for_var(v), m.get_last_p_for_var(v), f, l));
+        }
+        if m.does_var_have_ops(v) != f.is_some() {
+            return Err(format!("C11 does_var_have_ops({}) = {} vs scan {}", v, m.does_var_have_ops(v), f.is_some()));
+        }
+    }
+    for (k, p) in occ.iter().enumerate() {
+        let node = match m.get_node_ref(*p) {
+            Some(n) => n,
+            None => return Err(format!("C11 get_node_ref({}) is None on an occupied slot", p)),
+        };
+        let o = s[*p].as_ref().unwrap();
+        if sop(*p, node.get_op_ref()) != *o {
+            return Err(format!("C11 node at {} holds another op than get_pth", p));
+        }
+        let pp = if k > 0 { Some(occ[k - 1]) } else { None };
+        let np = occ.get(k + 1).cloned();
+        if m.get_previous_p(node) != pp || m.get_next_p(node) != np {
+            return Err(format!("C11 p={} prev/next {:?}/{:?} vs scan {:?}/{:?}", p, m.get_previous_p(node), m.get_next_p(node), pp, np));
+        }
+        for (relv, v) in o.vars.iter().enumerate() {
+            let (pv, nv) = (prev_var(&s, *p, *v), next_var(&s, *p, *v));
+            if m.get_previous_p_for_rel_var(relv, node) != pv || m.get_next_p_for_rel_var(relv, node) != nv {
+                return Err(format!(
+                    "C11 p={} var {} prev/next by rel var {:?}/{:?} vs scan {:?}/{:?}",
+                    p,
+                    v,
+                    m.get_previous_p_for_rel_var(relv, node),
+                    m.get_next_p_for_rel_var(relv, node),
+                    pv,
+                    nv
+                ));
+            }
+            if m.get_previous_p_for_var(*v, node) != Ok(pv) || m.get_next_p_for_var(*v, node) != Ok(nv) {
+                return Err(format!("C11 p={} var {} prev/next by var vs scan {:?}/{:?}", p, v, pv, nv));
+            }
+        }
+        if m.get_nth_p(k) != *p {
+            return Err(format!("C11 get_nth_p({}) = {} vs scan {}", k, m.get_nth_p(k), p));
+        }
+    }
+    for (p, o) in s.iter().enumerate() {
+        if o.is_none() && m.get_node_ref(p).is_some() {
+            return Err(format!("C11 get_node_ref({}) is Some on an empty slot", p));
+        }
+    }
+    Ok(())
+}
+
+/// what both samplers expose to the oracles
+trait Sampler {
+    fn s_state(&self) -> &[bool];
+    fn s_manager(&self) -> &FastOps;
+    fn s_cutoff(&self) -> usize;
+    fn s_n(&self) -> usize;
+    fn s_bond_count(&self, b: usize) -> usize;
+    fn s_fold(&self) -> Vec<Vec<bool>>;
+    /// `Verify::verify` where the sampler has one
+    fn s_verify(&self) -> Option<bool>;
+}
+impl Sampler for GI {
+    fn s_state(&self) -> &[bool] {
+        self.state_ref()
+    }
+    fn s_manager(&self) -> &FastOps {
+        self.get_manager_ref()
+    }
+    fn s_cutoff(&self) -> usize {
+        self.get_cutoff()
+    }
+    fn s_n(&self) -> usize {
+        QmcStepper::get_n(self)
+    }
+    fn s_bond_count(&self, b: usize) -> usize {
+        self.get_bond_count(b)
+    }
+    fn s_fold(&self) -> Vec<Vec<bool>> {
+        self.imaginary_time_fold(
+            |mut acc: Vec<Vec<bool>>, st: &[bool]| {
+                acc.push(st.to_vec());
+                acc
+            },
+            vec![],
+        )
+    }
+    fn s_verify(&self) -> Option<bool> {
+        Some(self.verify())
+    }
+}
+impl Sampler for GQ {
+    fn s_state(&self) -> &[bool] {
+        self.state_ref()
+    }
+    fn s_manager(&self) -> &FastOps {
+        self.get_manager_ref()
+    }
+    fn s_cutoff(&self) -> usize {
+        self.get_cutoff()
+    }
+    fn s_n(&self) -> usize {
+        QmcStepper::get_n(self)
+    }
+    fn s_bond_count(&self, b: usize) -> usize {
+        self.get_bond_count(b)
+    }
+    fn s_fold(&self) -> Vec<Vec<bool>> {
+        self.imaginary_time_fold(
+            |mut acc: Vec<Vec<bool>>, st: &[bool]| {
+                acc.push(st.to_vec());
+                acc
+            },
+            vec![],
+        )
+    }
+    fn s_verify(&self) -> Option<bool> {
+        None
+    }
+}
+/// the basic accessors; Err = the sampler is unusable
+fn probe<S: Sampler>(g: &S) -> Result<(), String> {
+    catch(|| {
+        let _ = g.s_state().to_vec();
+        let _ = g.s_manager().get_n();
+        let _ = g.s_n();
+        let _ = g.s_cutoff();
+    })
+}
+/// C06 C07 C11 C12 on a sampler
+fn check_sampler<S: Sampler>(g: &S, mdl: &dyn Model) -> Result<(), String> {
+    let m = g.s_manager();
+    let state = g.s_state().to_vec();
+    check_config(m, &state, mdl)?;
+    check_nav(m, mdl.nbonds())?;
+    if g.s_verify() == Some(false) {
+        return Err("C06 Verify::verify() is false on a consistent sampler".into());
+    }
+    let s = scan(m);
+    let states = propagate(&s, &state).map_err(|p| format!("C06 inconsistent at {}", p))?;
+    let fold = catch(|| g.s_fold()).map_err(|e| format!("C06 imaginary_time_fold panicked: {}", e))?;
+    if fold[..] != states[..states.len() - 1] {
+        return Err("C06 imaginary_time_fold states differ from the propagated states".into());
+    }
+    let occ = occupied(&s);
+    if g.s_n() != occ.len() {
+        return Err(format!("C11 sampler get_n {} differs from the scan {}", g.s_n(), occ.len()));
+    }
+    for b in 0..mdl.nbonds() {
+        let c = s.iter().flatten().filter(|o| o.bond == b).count();
+        if g.s_bond_count(b) != c {
+            return Err(format!("C11 get_bond_count({}) = {} differs from the scan {}", b, g.s_bond_count(b), c));
+        }
+    }
+    if g.s_cutoff() < occ.len() {
+        return Err(format!("C12 cutoff {} < n {}", g.s_cutoff(), occ.len()));
+    }
+    if let Some(last) = occ.last() {
+        if *last >= g.s_cutoff() {
+            return Err(format!("C12 op at p={} beyond the sampler cutoff {}", last, g.s_cutoff()));
+        }
+    }
+    Ok(())
+}
+fn cutoff_rule(cutoff: usize, n: usize) -> Result<(), String> {
+    if cutoff < n + n / 2 + 1 {
+        Err(format!("C12 after a time step cutoff {} < n + n/2 + 1 with n = {}", cutoff, n))
+    } else {
+        Ok(())
+    }
+}
+
+// ------------------------------------------------------------------------------------------------------------------
+// generators (dyadic inputs only)
+// ------------------------------------------------------------------------------------------------------------------
+fn gen_beta(r: &mut SplitMix64) -> f64 {
+    *r.pick(&[0.25, 0.5, 1.0, 1.0, 1.5, 2.0, 3.0, 4.0])
+}
+fn gen_ising(r: &mut SplitMix64, force_h: Option<bool>) -> IsingModel {
+    let nvars = r.range(2, 5) as usize;
+    let mut pairs = vec![];
+    for v in 0..nvars - 1 {
+        pairs.push((v, v + 1));
+    }
+    for _ in 0..r.range(0, 3) {
+        let a = r.below(nvars as u64) as usize;
+        let b = r.below(nvars as u64) as usize;
+        if a != b {
+            pairs.push((a, b));
+        }
+    }
+    let pairs = pairs
+        .into_iter()
+        .map(|(a, b)| {
+            let mag = *r.pick(&[0.25, 0.5, 1.0, 1.0, 1.5]);
+            let j = if r.coin() { mag } else { -mag };
+            if r.coin() {
+                ((a, b), j)
+            } else {
+                ((b, a), j)
+            }
+        })
+        .collect();
+    let gamma = *r.pick(&[0.25, 0.5, 1.0, 1.0, 2.0]);
+    let with_h = force_h.unwrap_or_else(|| r.chance(1, 2));
+    let h = if with_h { *r.pick(&[0.25, 0.5, 1.0, -0.25, -0.5, -1.0]) } else { 0.0 };
+    IsingModel::new(nvars, pairs, gamma, h)
+}
+fn gen_state(r: &mut SplitMix64, n: usize) -> Vec<bool> {
+    match r.below(4) {
+        0 => vec![false; n],
+        1 => vec![true; n],
+        _ => (0..n).map(|_| r.coin()).collect(),
+    }
+}
+fn build_ising(mdl: &IsingModel, cutoff: usize, state: Option<Vec<bool>>, seed: u64) -> GI {
+    GI::new_with_rng(mdl.pairs.clone(), mdl.gamma, mdl.h, cutoff, FRng(SplitMix64::new(seed)), state)
+}
+fn gen_terms(r: &mut SplitMix64, kind: u64, nvars: usize) -> Vec<Term> {
+    let mut t = vec![];
+    let pop = |x: usize| x.count_ones() as usize;
+    match kind {
+        0 => {
+            // exchange type ring (loop updates matter) + optional sz+sx+1 site terms
+            let d = *r.pick(&[0.5, 1.0, 2.0]);
+            let x = *r.pick(&[0.5, 1.0]);
+            for v in 0..nvars {
+                let w = (v + 1) % nvars;
+                if w != v && !(nvars == 2 && v == 1) {
+                    let mut m = vec![0.0; 16];
+                    m[5] = d;
+                    m[10] = d;
+                    m[0] = *r.pick(&[0.0, 0.25]);
+                    m[15] = m[0];
+                    m[6] = x;
+                    m[9] = x;
+                    t.push(Term { ctor: 0, mat: m, vars: vec![v, w] });
+                }
+            }
+            if r.coin() {
+                for v in 0..nvars {
+                    t.push(Term { ctor: 0, mat: vec![2.0, 1.0, 1.0, 0.0], vars: vec![v] });
+                }
+            }
+        }
+        1 => {
+            // Ising symmetric two-site diagonal terms + constant single-site terms (cluster updates run)
+            for v in 0..nvars - 1 {
+                let j = *r.pick(&[0.5, 1.0, 1.5]);
+                let m = if r.coin() { vec![j, 0.0, 0.0, j] } else { vec![0.0, j, j, 0.0] };
+                let vars = if r.coin() { vec![v, v + 1] } else { vec![v + 1, v] };
+                t.push(Term { ctor: 2, mat: m, vars });
+            }
+            let c = *r.pick(&[0.5, 1.0, 2.0]);
+            for v in 0..nvars {
+                t.push(Term { ctor: 0, mat: vec![c, c, c, c], vars: vec![v] });
+            }
+        }
+        2 => {
+            // mixed: three-variable diagonal table, offset constructors (negative entries), non-symmetric site terms
+            if nvars >= 3 {
+                let m: Vec<f64> = (0..8).map(|_| *r.pick(&[-0.5, 0.0, 0.5, 1.0, 2.0])).collect();
+                t.push(Term { ctor: 3, mat: m, vars: vec![0, 2, 1] });
+            }
+            for v in 0..nvars {
+                let a = *r.pick(&[0.5, 1.0]);
+                t.push(Term { ctor: 1, mat: vec![-a, 0.5, 0.5, a], vars: vec![v] });
+            }
+            for v in 0..nvars - 1 {
+                t.push(Term { ctor: 2, mat: vec![1.0, 0.0, 0.25, 1.0], vars: vec![v, v + 1] });
+            }
+        }
+        _ => {
+            // three-variable FULL matrix by Hamming distance + two-site full/diagonal terms + site terms (some constant)
+            let d = *r.pick(&[0.5, 1.0, 2.0]);
+            let x1 = *r.pick(&[0.25, 0.5, 1.0]);
+            let x2 = *r.pick(&[0.25, 0.5, 0.75]);
+            if nvars >= 3 {
+                let mut m3 = vec![0.0; 64];
+                for o in 0..8usize {
+                    for i in 0..8usize {
+                        m3[(o << 3) | i] = match pop(o ^ i) {
+                            0 => d,
+                            1 => x1,
+                            2 => x2,
+                            _ => 0.125,
+                        };
+                    }
+                }
+                let v0 = r.below(nvars as u64 - 2) as usize;
+                t.push(Term { ctor: 0, mat: m3, vars: vec![v0 + 2, v0, v0 + 1] });
+            }
+            for v in 0..nvars - 1 {
+                if r.coin() {
+                    let mut m2 = vec![0.0; 16];
+                    for o in 0..4usize {
+                        for i in 0..4usize {
+                            m2[(o << 2) | i] = match pop(o ^ i) {
+                                0 => d,
+                                1 => x1,
+                                _ => x2,
+                            };
+                        }
+                    }
+                    t.push(Term { ctor: 0, mat: m2, vars: vec![v, v + 1] });
+                } else {
+                    t.push(Term { ctor: 2, mat: vec![1.0, 0.0, 0.0, 1.0], vars: vec![v, v + 1] });
+                }
+            }
+            for v in 0..nvars {
+                match r.below(3) {
+                    0 => t.push(Term { ctor: 0, mat: vec![1.0, 0.5, 0.5, 1.0], vars: vec![v] }),
+                    1 => t.push(Term { ctor: 0, mat: vec![1.0, 1.0, 1.0, 1.0], vars: vec![v] }),
+                    _ => {}
+                }
+            }
+        }
+    }
+    t
+}
+fn add_term(q: &mut GQ, t: &Term) -> Result<(), String> {
+    match t.ctor {
+        0 => q.make_interaction(t.mat.clone(), t.vars.clone()),
+        1 => q.make_interaction_and_offset(t.mat.clone(), t.vars.clone()),
+        2 => q.make_diagonal_interaction(t.mat.clone(), t.vars.clone()),
+        _ => q.make_diagonal_interaction_and_offset(t.mat.clone(), t.vars.clone()),
+    }
+}
+fn gen_generic(r: &mut SplitMix64) -> (GenModel, bool) {
+    let kind = r.below(4);
+    let nvars = if kind == 3 { r.range(3, 4) as usize } else { r.range(2, 4) as usize };
+    let terms = gen_terms(r, kind, nvars);
+    let loops = kind == 0 || kind == 3 || r.coin();
+    (GenModel { nvars, terms }, loops)
+}
+fn build_generic(mdl: &GenModel, loops: bool, heatbath: bool, state: Vec<bool>, seed: u64) -> GQ {
+    let mut q = GQ::new_with_state(mdl.nvars, FRng(SplitMix64::new(seed)), state, loops);
+    for t in mdl.terms.iter() {
+        add_term(&mut q, t).expect("legal interaction");
+    }
+    q.set_do_heatbath(heatbath);
+    q
+}
+/// the generic model `into_qmc` must build from an Ising model
+fn converted_model(m: &IsingModel) -> GenModel {
+    let mut terms = vec![];
+    for ((a, b), j) in m.pairs.iter() {
+        terms.push(Term { ctor: 3, mat: vec![-j, *j, *j, -j], vars: vec![*a, *b] });
+    }
+    for v in 0..m.nvars {
+        terms.push(Term { ctor: 0, mat: vec![m.gamma; 4], vars: vec![v] });
+    }
+    if m.h.abs() > EPS {
+        for v in 0..m.nvars {
+            terms.push(Term { ctor: 1, mat: vec![-m.h, 0.0, 0.0, m.h], vars: vec![v] });
+        }
+    }
+    GenModel { nvars: m.nvars, terms }
+}
+
+/// the illegal and the extreme temperatures
+#[derive(Clone, Copy, Debug)]
+enum Fault {
+    Beta(f64),
+    Rng,
+}
+fn gen_bad_beta(r: &mut SplitMix64) -> f64 {
+    *r.pick(&[f64::NAN, f64::NAN, -1.0, -0.5, f64::INFINITY, f64::INFINITY, 0.0, 1099511627776.0])
+}
+fn beta_token(b: f64) -> String {
+    if b.is_nan() {
+        "nan".into()
+    } else if b.is_infinite() {
+        "inf".into()
+    } else {
+        rat(b)
+    }
+}
+fn beta_class(b: f64) -> &'static str {
+    if b.is_nan() {
+        "beta_nan"
+    } else if b.is_infinite() {
+        "beta_inf"
+    } else if b < 0.0 {
+        "beta_negative"
+    } else if b == 0.0 {
+        "beta_zero"
+    } else {
+        "beta_huge"
+    }
+}
+
+// ------------------------------------------------------------------------------------------------------------------
+// what happens after the faulted call: classification, oracles, continued use
+// ------------------------------------------------------------------------------------------------------------------
+struct After<'a, S, P> {
+    /// STAT prefix `fault.<mode>.<call>.<fault>`
+    key: String,
+    probe: &'a dyn Fn(&S) -> Result<(), String>,
+    oracle: &'a dyn Fn(&S) -> Result<(), String>,
+    cutoff: &'a dyn Fn(&S) -> usize,
+    n: &'a dyn Fn(&S) -> usize,
+    /// choose one further VALID step
+    plan: &'a dyn Fn(&mut SplitMix64, &S) -> P,
+    /// run it; true = it was a full time step (cutoff rule applies)
+    exec: &'a dyn Fn(&mut S, &P) -> bool,
+}
+/// returns true if the object survived and was used further without a failure
+fn aftermath<S, P: std::fmt::Debug>(sc: &mut Sc, r: &mut SplitMix64, s: &mut S, a: &After<S, P>, ctx: &str, outcome: Result<(), String>, cutoff_before: usize) -> bool {
+    disarm();
+    let panicked = outcome.is_err();
+    if panicked {
+        sc.nt = true;
+    }
+    if let Err(e) = (a.probe)(s) {
+        if panicked {
+            // nothing inconsistent can be observed on an object whose accessors panic
+            sc.stat(&format!("{}.unusable", a.key));
+            sc.stat("fault.unusable");
+        } else {
+            sc.fail(format!("{} returned normally but left the object unusable: {}", ctx, e));
+        }
+        return false;
+    }
+    sc.stat(&format!("{}.{}", a.key, if panicked { "survived" } else { "returned" }));
+    sc.stat(if panicked { "fault.survived" } else { "fault.returned" });
+    let ctx = match &outcome {
+        Err(e) => format!("{} - caught panic: {}", ctx, clip(e).chars().take(120).collect::<String>()),
+        Ok(()) => ctx.to_string(),
+    };
+    if !sc.res(&format!("right after {}", ctx), (a.oracle)(s)) {
+        return false;
+    }
+    let mut last_cutoff = (a.cutoff)(s);
+    if last_cutoff < cutoff_before {
+        sc.fail(format!("C12 cutoff shrank from {} to {} [across {}]", cutoff_before, last_cutoff, ctx));
+        return false;
+    }
+    for i in 0..FOLLOW_UP {
+        let p = (a.plan)(r, s);
+        let full = match catch(|| (a.exec)(s, &p)) {
+            Ok(f) => f,
+            Err(e) if panicked && pool_exhausted(&e) => {
+                // a caught panic inside a sweep loses the scratch buffers that were in flight (unchanged tree too); the pool
+                // bound is a few instances per type. Counted, not a failure of C06/C07/C11/C12.
+                sc.stat(&format!("{}.pool_exhausted_later", a.key));
+                sc.stat("fault.pool_exhausted_later");
+                return false;
+            }
+            Err(e) => {
+                sc.fail(format!("valid step {:?} (#{}) after {} panicked: {}", p, i, ctx, e));
+                return false;
+            }
+        };
+        if let Err(e) = (a.probe)(s) {
+            sc.fail(format!("valid step {:?} (#{}) after {} left the object unusable: {}", p, i, ctx, e));
+            return false;
+        }
+        if !sc.res(&format!("valid step {:?} (#{}) after {}", p, i, ctx), (a.oracle)(s)) {
+            return false;
+        }
+        let c = (a.cutoff)(s);
+        if c < last_cutoff {
+            sc.fail(format!("C12 cutoff shrank from {} to {} [valid step {:?} (#{}) after {}]", last_cutoff, c, p, i, ctx));
+            return false;
+        }
+        last_cutoff = c;
+        if full && !sc.res(&format!("valid step {:?} (#{}) after {}", p, i, ctx), cutoff_rule(c, (a.n)(s))) {
+            return false;
+        }
+    }
+    sc.stat("fault.continued_ok");
+    true
+}
+
+/// number of draws `f` makes (on a scratch copy; its panics do not matter)
+fn count_draws(f: impl FnOnce()) -> u64 {
+    disarm();
+    let d0 = draws();
+    let _ = catch(f);
+    draws() - d0
+}
+
+// ------------------------------------------------------------------------------------------------------------------
+// mode ising
+// ------------------------------------------------------------------------------------------------------------------
+#[derive(Clone, Copy, Debug)]
+enum ICall {
+    Timestep,
+    Diag,
+    Cluster,
+    Rvb(Option<usize>),
+}
+impl ICall {
+    fn name(&self) -> &'static str {
+        match self {
+            ICall::Timestep => "timestep",
+            ICall::Diag => "single_diagonal_step",
+            ICall::Cluster => "single_cluster_step",
+            ICall::Rvb(_) => "single_rvb_sweep",
+        }
+    }
+    fn takes_beta(&self) -> bool {
+        matches!(self, ICall::Timestep | ICall::Diag)
+    }
+}
+fn icall(g: &mut GI, c: ICall, beta: f64) -> bool {
+    match c {
+        ICall::Timestep => {
+            g.timestep(beta);
+            true
+        }
+        ICall::Diag => {
+            g.single_diagonal_step(beta);
+            false
+        }
+        ICall::Cluster => {
+            g.single_cluster_step();
+            false
+        }
+        ICall::Rvb(k) => {
+            g.single_rvb_sweep(k);
+            false
+        }
+    }
+}
+fn gen_icall(r: &mut SplitMix64) -> ICall {
+    match r.below(8) {
+        0 | 1 | 2 => ICall::Timestep,
+        3 | 4 | 5 => ICall::Diag,
+        6 => ICall::Cluster,
+        _ => ICall::Rvb(if r.coin() { None } else { Some(r.below(4) as usize) }),
+    }
+}
+fn first_slot_flips(m: &FastOps) -> bool {
+    m.get_cutoff() > 0 && m.get_pth(0).map(|o| !o.is_diagonal()).unwrap_or(false)
+}
+/// a sampler with history; `guided`: keep stepping (at most 60 more steps) until the string BEGINS with a spin flip, so that a
+/// sweep interrupted further up has already changed the propagated state
+fn warm_ising(r: &mut SplitMix64, sc: &mut Sc, force_h: Option<bool>) -> (IsingModel, GI, f64) {
+    let mdl = gen_ising(r, force_h);
+    let cutoff0 = r.range(1, 12) as usize;
+    let st = if r.chance(1, 5) { None } else { Some(gen_state(r, mdl.nvars)) };
+    let seed = r.next();
+    let mut g = build_ising(&mdl, cutoff0, st.clone(), seed);
+    let (rvb, hb) = (r.chance(1, 3), r.chance(1, 3));
+    g.set_run_rvb(rvb);
+    g.set_enable_heatbath(hb);
+    let beta = gen_beta(r);
+    let warm = r.range(1, 8);
+    let guided = r.chance(2, 3);
+    for _ in 0..warm {
+        g.timestep(beta);
+    }
+    let mut extra = 0;
+    while guided && extra < 60 && !first_slot_flips(g.get_manager_ref()) {
+        g.timestep(beta);
+        extra += 1;
+    }
+    sc.tok(mdl.token());
+    sc.tok(format!("cutoff={},state={},seed={},rvb={},hb={},beta={},warm={}+{}", cutoff0, st.map(|s| bits(&s)).unwrap_or_else(|| "?".into()), seed, rvb as u8, hb as u8, rat(beta), warm, extra));
+    (mdl, g, beta)
+}
+fn ising_after<'a>(key: String, mdl: &'a IsingModel) -> After<'a, GI, (ICall, f64)> {
+    // the closures are leaked on purpose (a few bytes per scenario thread) to keep the struct simple
+    let oracle: &'a dyn Fn(&GI) -> Result<(), String> = Box::leak(Box::new(move |g: &GI| check_sampler(g, mdl)));
+    After {
+        key,
+        probe: &|g: &GI| probe(g),
+        oracle,
+        cutoff: &|g: &GI| g.get_cutoff(),
+        n: &|g: &GI| g.get_n(),
+        plan: &|r: &mut SplitMix64, _g: &GI| (gen_icall(r), gen_beta(r)),
+        exec: &|g: &mut GI, p: &(ICall, f64)| icall(g, p.0, p.1),
+    }
+}
+fn sc_ising(r: &mut SplitMix64, sc: &mut Sc) {
+    sc.tok("ising");
+    let call = gen_icall(r);
+    sc.tok(call.name());
+    let fault = if call.takes_beta() && r.chance(3, 5) { Fault::Beta(gen_bad_beta(r)) } else { Fault::Rng };
+    let class = match fault {
+        Fault::Beta(b) => beta_class(b),
+        Fault::Rng => "rng",
+    };
+    sc.tok(class);
+    let (mdl, mut g, beta_w) = warm_ising(r, sc, None);
+    // options may change between the history and the faulted call
+    if r.chance(1, 4) {
+        let hb = r.coin();
+        g.set_enable_heatbath(hb);
+        sc.tok(format!("hb:={}", hb as u8));
+    }
+    if r.chance(1, 4) {
+        let rvb = r.coin();
+        g.set_run_rvb(rvb);
+        sc.tok(format!("rvb:={}", rvb as u8));
+    }
+    if !sc.res("history before the fault", check_sampler(&g, &mdl)) {
+        return;
+    }
+    let cutoff_before = g.get_cutoff();
+    let (beta, ctx) = match fault {
+        Fault::Beta(b) => {
+            sc.tok(format!("beta!={}", beta_token(b)));
+            (b, format!("{}(beta = {})", call.name(), beta_token(b)))
+        }
+        Fault::Rng => {
+            let mut twin = g.clone();
+            let d = count_draws(move || {
+                icall(&mut twin, call, beta_w);
+            });
+            if d == 0 {
+                sc.tok("draws=0");
+                (beta_w, format!("{} (no draw to fail)", call.name()))
+            } else {
+                let k = r.below(d);
+                sc.tok(format!("draw={}/{}", k, d));
+                arm(&RNG_FUSE, Some(k));
+                (beta_w, format!("{:?} whose rng fails at draw {} of {}", call, k, d))
+            }
+        }
+    };
+    let outcome = catch(|| {
+        icall(&mut g, call, beta);
+    });
+    let a = ising_after(format!("fault.ising.{}.{}", call.name(), class), &mdl);
+    aftermath(sc, r, &mut g, &a, &ctx, outcome, cutoff_before);
+}
+
+// ------------------------------------------------------------------------------------------------------------------
+// mode generic
+// ------------------------------------------------------------------------------------------------------------------
+#[derive(Clone, Copy, Debug)]
+enum GCall {
+    Timestep,
+    Diag,
+    Loop,
+    Cluster,
+    Free,
+}
+impl GCall {
+    fn name(&self) -> &'static str {
+        match self {
+            GCall::Timestep => "timestep",
+            GCall::Diag => "diagonal_update",
+            GCall::Loop => "loop_update",
+            GCall::Cluster => "cluster_update",
+            GCall::Free => "flip_free_bits",
+        }
+    }
+    fn takes_beta(&self) -> bool {
+        matches!(self, GCall::Timestep | GCall::Diag)
+    }
+}
+fn gcall(q: &mut GQ, c: GCall, beta: f64) -> bool {
+    match c {
+        GCall::Timestep => {
+            q.timestep(beta);
+            true
+        }
+        GCall::Diag => {
+            q.diagonal_update(beta);
+            false
+        }
+        GCall::Loop => {
+            q.loop_update();
+            false
+        }
+        GCall::Cluster => {
+            // refused (Err) on models that break the Ising symmetry: nothing happens then
+            let _ = q.cluster_update().is_ok();
+            false
+        }
+        GCall::Free => {
+            q.flip_free_bits();
+            false
+        }
+    }
+}
+fn gen_gcall(r: &mut SplitMix64) -> GCall {
+    match r.below(10) {
+        0 | 1 | 2 => GCall::Timestep,
+        3 | 4 | 5 => GCall::Diag,
+        6 | 7 => GCall::Loop,
+        8 => GCall::Cluster,
+        _ => GCall::Free,
+    }
+}
+fn generic_after<'a>(key: String, mdl: &'a GenModel) -> After<'a, GQ, (GCall, f64)> {
+    let oracle: &'a dyn Fn(&GQ) -> Result<(), String> = Box::leak(Box::new(move |q: &GQ| check_sampler(q, mdl)));
+    After {
+        key,
+        probe: &|q: &GQ| probe(q),
+        oracle,
+        cutoff: &|q: &GQ| q.get_cutoff(),
+        n: &|q: &GQ| QmcStepper::get_n(q),
+        plan: &|r: &mut SplitMix64, _q: &GQ| (gen_gcall(r), gen_beta(r)),
+        exec: &|q: &mut GQ, p: &(GCall, f64)| gcall(q, p.0, p.1),
+    }
+}
+/// valid arguments only: an Ising sampler is stepped, converted with `into_qmc`, a further valid interaction is added and
+/// stepping continues; should any of these steps panic, the sampler that is left must be unusable or consistent
+fn sc_generic_convert(r: &mut SplitMix64, sc: &mut Sc) {
+    sc.tok("generic");
+    sc.tok("into_qmc+make_interaction+timestep");
+    sc.tok("valid_arguments");
+    let with_h = r.chance(3, 4);
+    let (imdl, g, beta) = warm_ising(r, sc, Some(with_h));
+    let mut q: GQ = g.into_qmc();
+    let mut mdl = converted_model(&imdl);
+    let extra = r.range(1, 2);
+    for _ in 0..extra {
+        let t = if r.coin() {
+            let c = *r.pick(&[0.25, 0.5, 1.0]);
+            Term { ctor: 0, mat: vec![c; 4], vars: vec![r.below(imdl.nvars as u64) as usize] }
+        } else {
+            let a = r.below(imdl.nvars as u64) as usize;
+            let b = (a + 1 + r.below(imdl.nvars as u64 - 1) as usize) % imdl.nvars;
+            Term { ctor: 2, mat: vec![1.0, 0.5, 0.5, 1.0], vars: vec![a, b] }
+        };
+        if let Err(e) = add_term(&mut q, &t) {
+            sc.fail(format!("a valid interaction {:?} was refused after into_qmc: {}", t, e));
+            return;
+        }
+        mdl.terms.push(t);
+    }
+    sc.tok(mdl.token());
+    if r.coin() {
+        q.set_do_loop_updates(true);
+        sc.tok("loops");
+    }
+    if !sc.res("converted sampler before any step", check_sampler(&q, &mdl)) {
+        return;
+    }
+    let a = generic_after("fault.generic.converted_timestep.valid_arguments".into(), &mdl);
+    for i in 0..30 {
+        let cutoff_before = q.get_cutoff();
+        let outcome = catch(|| {
+            q.timestep(beta);
+        });
+        if outcome.is_err() {
+            aftermath(sc, r, &mut q, &a, &format!("timestep #{} of a converted sampler with a later interaction (valid arguments only)", i), outcome, cutoff_before);
+            return;
+        }
+        if !sc.res(&format!("timestep #{} of a converted sampler with a later interaction", i), check_sampler(&q, &mdl)) {
+            return;
+        }
+    }
+    sc.stat("fault.generic.converted_timestep.valid_arguments.no_panic");
+}
+fn sc_generic(r: &mut SplitMix64, sc: &mut Sc) {
+    if r.chance(1, 6) {
+        return sc_generic_convert(r, sc);
+    }
+    sc.tok("generic");
+    let call = gen_gcall(r);
+    sc.tok(call.name());
+    let fault = if call.takes_beta() && r.chance(3, 5) { Fault::Beta(gen_bad_beta(r)) } else { Fault::Rng };
+    let class = match fault {
+        Fault::Beta(b) => beta_class(b),
+        Fault::Rng => "rng",
+    };
+    sc.tok(class);
+    let (mdl, loops) = gen_generic(r);
+    let hb = r.chance(1, 3);
+    let st = gen_state(r, mdl.nvars);
+    let seed = r.next();
+    let mut q = build_generic(&mdl, loops, hb, st.clone(), seed);
+    let beta_w = gen_beta(r);
+    let warm = r.range(1, 8);
+    for _ in 0..warm {
+        q.timestep(beta_w);
+    }
+    let mut extra = 0;
+    let guided = r.chance(2, 3);
+    while guided && extra < 60 && !first_slot_flips(q.get_manager_ref()) {
+        q.timestep(beta_w);
+        extra += 1;
+    }
+    sc.tok(mdl.token());
+    sc.tok(format!("state={},seed={},loops={},hb={},beta={},warm={}+{}", bits(&st), seed, loops as u8, hb as u8, rat(beta_w), warm, extra));
+    if r.chance(1, 4) {
+        let hb = r.coin();
+        q.set_do_heatbath(hb);
+        sc.tok(format!("hb:={}", hb as u8));
+    }
+    if !sc.res("history before the fault", check_sampler(&q, &mdl)) {
+        return;
+    }
+    let cutoff_before = q.get_cutoff();
+    let (beta, ctx) = match fault {
+        Fault::Beta(b) => {
+            sc.tok(format!("beta!={}", beta_token(b)));
+            (b, format!("{}(beta = {})", call.name(), beta_token(b)))
+        }
+        Fault::Rng => {
+            let mut twin = q.clone();
+            let d = count_draws(move || {
+                gcall(&mut twin, call, beta_w);
+            });
+            if d == 0 {
+                sc.tok("draws=0");
+                (beta_w, format!("{} (no draw to fail)", call.name()))
+            } else {
+                let k = r.below(d);
+                sc.tok(format!("draw={}/{}", k, d));
+                arm(&RNG_FUSE, Some(k));
+                (beta_w, format!("{} whose rng fails at draw {} of {}", call.name(), k, d))
+            }
+        }
+    };
+    let outcome = catch(|| {
+        gcall(&mut q, call, beta);
+    });
+    let a = generic_after(format!("fault.generic.{}.{}", call.name(), class), &mdl);
+    aftermath(sc, r, &mut q, &a, &ctx, outcome, cutoff_before);
+}
+
+// ------------------------------------------------------------------------------------------------------------------
+// mode container: a FastOps owned by the harness, mutation callbacks / Hamiltonians / generators that fail part-way
+// ------------------------------------------------------------------------------------------------------------------
+struct Raw {
+    m: FastOps,
+    state: Vec<bool>,
+    rng: FRng,
+}
+fn mk_diag(mdl: &IsingModel, b: usize, st: &[bool]) -> Option<FastOp> {
+    let (vars, c) = mdl.edge_ref(b);
+    let sub: Vec<bool> = vars.iter().map(|v| st[*v]).collect();
+    if mdl.weight(b, &sub, &sub) > 0.0 {
+        Some(FastOp::diagonal(FastOp::make_vars(vars.iter().cloned()), b, FastOp::make_substate(sub.iter().cloned()), c))
+    } else {
+        None
+    }
+}
+fn mk_flip(mdl: &IsingModel, v: usize, from: bool) -> FastOp {
+    FastOp::offdiagonal(FastOp::make_vars(std::iter::once(v)), mdl.ne() + v, FastOp::make_substate(std::iter::once(from)), FastOp::make_substate(std::iter::once(!from)), true)
+}
+/// a legal periodic operator string written by the harness (diagonal ops with positive weight, transverse spin flips)
+fn gen_string(r: &mut SplitMix64, mdl: &IsingModel, s0: &[bool], len: usize) -> Vec<(usize, FastOp)> {
+    let mut st = s0.to_vec();
+    let mut ops = vec![];
+    let nb = mdl.nbonds();
+    for p in 0..len {
+        match r.below(10) {
+            0..=2 => {}
+            3..=6 => {
+                if let Some(op) = mk_diag(mdl, r.below(nb as u64) as usize, &st) {
+                    ops.push((p, op));
+                }
+            }
+            _ => {
+                let v = r.below(mdl.nvars as u64) as usize;
+                ops.push((p, mk_flip(mdl, v, st[v])));
+                st[v] = !st[v];
+            }
+        }
+    }
+    let mut p = len;
+    for v in 0..mdl.nvars {
+        if st[v] != s0[v] {
+            ops.push((p, mk_flip(mdl, v, st[v])));
+            st[v] = !st[v];
+            p += 1 + r.below(2) as usize;
+        }
+    }
+    ops
+}
+fn gen_raw(r: &mut SplitMix64, sc: &mut Sc) -> (IsingModel, Raw) {
+    if r.coin() {
+        // built by real sweeps (per-bond counters present)
+        sc.tok("from_sampler");
+        let (mdl, g, _) = warm_ising(r, sc, None);
+        let mut m = g.get_manager_ref().clone();
+        let grow = r.below(4) as usize;
+        m.set_cutoff(m.get_cutoff() + grow);
+        let state = g.state_ref().to_vec();
+        let seed = r.next();
+        sc.tok(format!("grow={},rng={}", grow, seed));
+        (mdl, Raw { m, state, rng: FRng(SplitMix64::new(seed)) })
+    } else {
+        // built by `new_from_ops` (no counters: get_count scans)
+        sc.tok("new_from_ops");
+        let mdl = gen_ising(r, None);
+        let s0 = gen_state(r, mdl.nvars);
+        let len = r.range(0, 14) as usize;
+        let ops = gen_string(r, &mdl, &s0, len);
+        let top = ops.last().map(|(p, _)| p + 1).unwrap_or(0);
+        let mut m = FastOps::new_from_ops(mdl.nvars, ops);
+        let cut = top + r.below(5) as usize;
+        m.set_cutoff(cut);
+        let seed = r.next();
+        sc.tok(mdl.token());
+        sc.tok(format!("state={},rng={}", bits(&s0), seed));
+        sc.tok(show_slots(&m));
+        (mdl, Raw { m, state: s0, rng: FRng(SplitMix64::new(seed)) })
+    }
+}
+fn raw_oracle(w: &Raw, mdl: &IsingModel) -> Result<(), String> {
+    check_config(&w.m, &w.state, mdl)?;
+    check_nav(&w.m, mdl.nbonds())
+}
+/// further valid use of a bare container: the sweeps a sampler would run, with the harness's own Hamiltonian
+fn raw_step(w: &mut Raw, mdl: &IsingModel, kind: u8, beta: f64) -> bool {
+    let cutoff = w.m.get_cutoff();
+    let ham = IsingHam { m: mdl, fused: false };
+    match kind {
+        0 => {
+            w.m.make_diagonal_update_with_rng_and_state_ref(cutoff, beta, &mut w.state, &ham, &mut w.rng);
+            let n = w.m.get_n();
+            w.m.set_cutoff(max(cutoff, n + n / 2 + 1));
+        }
+        1 => {
+            let bw = FastOps::make_bond_weights(|_v: &[usize], b: usize, i: &[bool], o: &[bool]| mdl.weight(b, i, o), mdl.nbonds(), |b| mdl.edge_ref(b).0);
+            w.m.make_heatbath_diagonal_update_with_rng_and_state_ref(cutoff, beta, &mut w.state, &ham, &bw, &mut w.rng);
+            let n = w.m.get_n();
+            w.m.set_cutoff(max(cutoff, n + n / 2 + 1));
+        }
+        _ => {
+            if mdl.h.abs() > EPS {
+                let first_field_bond = mdl.ne() + mdl.nvars;
+                w.m.flip_each_cluster_rng(0.5, &mut w.rng, &mut w.state, Some(|node: &FastOpNode| if node.get_op_ref().get_bond() >= first_field_bond { 0.0 } else { 1.0 }));
+            } else {
+                w.m.flip_each_cluster_ising_symmetry_rng(0.5, &mut w.rng, &mut w.state);
+            }
+            for v in 0..mdl.nvars {
+                if !w.m.does_var_have_ops(v) {
+                    w.state[v] = w.rng.next_u64() >> 63 == 1;
+                }
+            }
+        }
+    }
+    false
+}
+fn raw_after<'a>(key: String, mdl: &'a IsingModel) -> After<'a, Raw, (u8, f64)> {
+    let oracle: &'a dyn Fn(&Raw) -> Result<(), String> = Box::leak(Box::new(move |w: &Raw| raw_oracle(w, mdl)));
+    let exec: &'a dyn Fn(&mut Raw, &(u8, f64)) -> bool = Box::leak(Box::new(move |w: &mut Raw, p: &(u8, f64)| raw_step(w, mdl, p.0, p.1)));
+    After {
+        key,
+        probe: &|w: &Raw| {
+            catch(|| {
+                let _ = (w.m.get_n(), w.m.get_cutoff(), w.m.get_first_p());
+            })
+        },
+        oracle,
+        cutoff: &|w: &Raw| w.m.get_cutoff(),
+        n: &|w: &Raw| w.m.get_n(),
+        plan: &|r: &mut SplitMix64, _w: &Raw| (r.below(3) as u8, gen_beta(r)),
+        exec,
+    }
+}
+
+/// which edits a callback may ask for (the domain of the entry point it is handed to)
+#[derive(Clone, Debug)]
+struct Policy {
+    insert: bool,
+    remove: bool,
+    replace_same: bool,
+    replace_other: bool,
+    /// sub-variable cursors: only ops inside these variables may be touched
+    allowed: Option<Vec<usize>>,
+}
+struct CbCtx<'a> {
+    mdl: &'a IsingModel,
+    /// state entering every slot; diagonal edits never change it
+    states: &'a [Vec<bool>],
+    /// contents the container must have, given the edits requested so far
+    expect: RefCell<Vec<Option<SOp>>>,
+    calls: Cell<u64>,
+    panic_at: Option<u64>,
+    fired: Cell<Option<(usize, bool)>>,
+    script: Vec<u64>,
+    errs: RefCell<Vec<String>>,
+    pol: Policy,
+    edits: Cell<u64>,
+}
+fn same_prefix(a: &[Option<SOp>], b: &[Option<SOp>]) -> Option<usize> {
+    let n = max(a.len(), b.len());
+    (0..n).find(|q| a.get(*q).cloned().flatten() != b.get(*q).cloned().flatten())
+}
+impl<'a> CbCtx<'a> {
+    fn state_at(&self, p: usize) -> &[bool] {
+        &self.states[p.min(self.states.len() - 1)]
+    }
+    /// C11 "at every moment": the container as the callback sees it
+    fn inspect(&self, s: &FastOps, op: Option<&FastOp>, p: usize) {
+        let e = self.expect.borrow();
+        let mut errs = self.errs.borrow_mut();
+        if errs.len() >= 3 {
+            return;
+        }
+        let handed = op.map(|o| sop(p, o));
+        let should = e.get(p).cloned().flatten();
+        if handed != should {
+            errs.push(format!("C11 inside the callback at slot {}: the op handed over is {:?} but the slot holds {:?} by the edits requested so far", p, handed, should));
+            return;
+        }
+        let now = scan(s);
+        if let Some(q) = same_prefix(&now, &e) {
+            errs.push(format!(
+                "C11 inside the callback at slot {}: get_pth({}) = {:?} but the edits requested so far leave {:?} there",
+                p,
+                q,
+                now.get(q).cloned().flatten(),
+                e.get(q).cloned().flatten()
+            ));
+            return;
+        }
+        if let Err(x) = check_nav(s, self.mdl.nbonds()) {
+            errs.push(format!("{} [inside the callback at slot {}]", x, p));
+        }
+    }
+    fn visit(&self, s: &FastOps, op: Option<&FastOp>, p: usize) -> Option<Option<FastOp>> {
+        let k = self.calls.get();
+        self.calls.set(k + 1);
+        self.inspect(s, op, p);
+        if self.panic_at == Some(k) {
+            self.fired.set(Some((p, op.is_some())));
+            panic!("injected fault: the callback failed at its invocation {} (slot {})", k, p);
+        }
+        let w = self.script[(k as usize) % self.script.len()];
+        let st = self.state_at(p);
+        let inside = |vars: &[usize]| self.pol.allowed.as_ref().map(|a| vars.iter().all(|v| a.contains(v))).unwrap_or(true);
+        let nb = self.mdl.nbonds();
+        let pick = ((w >> 8) % nb as u64) as usize;
+        let act: Option<Option<FastOp>> = match op {
+            None => {
+                if self.pol.insert && w % 3 == 0 && inside(self.mdl.edge_ref(pick).0) {
+                    mk_diag(self.mdl, pick, st).map(Some)
+                } else {
+                    None
+                }
+            }
+            Some(o) if o.is_diagonal() && inside(o.get_vars()) => match w % 5 {
+                0 if self.pol.remove => Some(None),
+                1 if self.pol.replace_same => {
+                    let cands: Vec<usize> = (0..nb).filter(|b| self.mdl.edge_ref(*b).0 == o.get_vars()).collect();
+                    let b = cands[((w >> 8) % cands.len() as u64) as usize];
+                    mk_diag(self.mdl, b, st).map(Some)
+                }
+                2 if self.pol.replace_other && inside(self.mdl.edge_ref(pick).0) => mk_diag(self.mdl, pick, st).map(Some),
+                _ => None,
+            },
+            _ => None,
+        };
+        if let Some(a) = &act {
+            let mut e = self.expect.borrow_mut();
+            if p >= e.len() {
+                e.resize(p + 1, None);
+            }
+            e[p] = a.as_ref().map(|o| sop(p, o));
+            self.edits.set(self.edits.get() + 1);
+        }
+        act
+    }
+}
+
+#[derive(Clone, Copy, Debug, PartialEq)]
+enum ArgsKind {
+    NoArgs,
+    All,
+    Varlist,
+}
+fn sc_container_callback(r: &mut SplitMix64, sc: &mut Sc) {
+    sc.tok("container");
+    let entry = *r.pick(&["mutate_ps", "mutate_ops", "mutate_p", "mutate_subsection", "mutate_subsection_ops"]);
+    sc.tok(entry);
+    sc.tok("callback");
+    let (mdl, mut w) = gen_raw(r, sc);
+    if !sc.res("container before the fault", raw_oracle(&w, &mdl)) {
+        return;
+    }
+    let s0 = scan(&w.m);
+    let len = s0.len();
+    let states = propagate(&s0, &w.state).expect("consistent");
+    let ops_only = entry == "mutate_ops" || entry == "mutate_subsection_ops";
+    // window
+    let pstart = if len == 0 { 0 } else { r.below(len as u64) as usize };
+    let pstart = if r.chance(1, 3) { 0 } else { pstart };
+    let mut pend = pstart + r.below((len - pstart) as u64 + 1) as usize;
+    if r.chance(1, 2) {
+        pend = len;
+    }
+    if !ops_only && entry != "mutate_p" && r.chance(1, 6) {
+        pend = len + 1 + r.below(2) as usize;
+    }
+    let args_kind = match entry {
+        "mutate_subsection" | "mutate_subsection_ops" => *r.pick(&[ArgsKind::NoArgs, ArgsKind::All, ArgsKind::Varlist, ArgsKind::Varlist]),
+        "mutate_p" => ArgsKind::All,
+        _ => ArgsKind::NoArgs,
+    };
+    let mut sub: Vec<usize> = (0..mdl.nvars).filter(|_| r.coin()).collect();
+    if sub.is_empty() {
+        sub.push(r.below(mdl.nvars as u64) as usize);
+    }
+    let hints: Vec<Option<usize>> = sub
+        .iter()
+        .map(|v| {
+            let on: Vec<usize> = s0.iter().flatten().filter(|o| o.vars.contains(v)).map(|o| o.p).collect();
+            if on.is_empty() || r.coin() {
+                None
+            } else {
+                Some(*r.pick(&on))
+            }
+        })
+        .collect();
+    let varlist = args_kind == ArgsKind::Varlist;
+    let pol = if ops_only {
+        // op-only sweeps walk along the links of the op they just handed out: replacing is inside their domain, removing is not
+        Policy { insert: false, remove: false, replace_same: true, replace_other: !varlist, allowed: if varlist { Some(sub.clone()) } else { None } }
+    } else if varlist {
+        Policy { insert: true, remove: true, replace_same: true, replace_other: false, allowed: Some(sub.clone()) }
+    } else {
+        Policy { insert: true, remove: true, replace_same: true, replace_other: true, allowed: None }
+    };
+    // single slot for mutate_p
+    let single_p = if len == 0 {
+        0
+    } else {
+        let occ = occupied(&s0);
+        if !occ.is_empty() && r.coin() {
+            *r.pick(&occ)
+        } else {
+            r.below(len as u64) as usize
+        }
+    };
+    if entry == "mutate_p" && len == 0 {
+        sc.tok("no_slot");
+        sc.stat("fault.container.mutate_p.no_slot");
+        return;
+    }
+    // number of invocations the call makes without a fault (on a copy), then the failing one
+    let script: Vec<u64> = (0..len + 8).map(|_| r.next()).collect();
+    let mut expect0 = s0.clone();
+    if entry != "mutate_p" && pend > len {
+        expect0.resize(pend, None);
+    }
+    let run = |m: &mut FastOps, cx: &CbCtx| match entry {
+        "mutate_ps" => {
+            m.mutate_ps(pstart, pend, pstart, |s, op, p| (cx.visit(s, op, p), p + 1));
+        }
+        "mutate_ops" => {
+            m.mutate_ops(pstart, pend, (), |s, op, p, t| (cx.visit(s, Some(op), p), t));
+        }
+        "mutate_p" => {
+            let args = m.get_empty_args(SubvarAccess::All);
+            let args = m.fill_args_at_p(single_p, args);
+            let (_, args) = m.mutate_p(|s, op, p| (cx.visit(s, op, p), p), single_p, single_p, args);
+            m.return_args(args);
+        }
+        _ => {
+            let args = match args_kind {
+                ArgsKind::NoArgs => None,
+                ArgsKind::All => {
+                    let a = m.get_empty_args(SubvarAccess::All);
+                    Some(m.fill_args_at_p(pstart, a))
+                }
+                ArgsKind::Varlist => {
+                    let mut a = m.get_empty_args(SubvarAccess::Varlist(&sub));
+                    m.fill_args_at_p_with_hint(pstart, &mut a, &sub, hints.iter().cloned());
+                    Some(a)
+                }
+            };
+            if entry == "mutate_subsection" {
+                m.mutate_subsection(pstart, pend, pstart, |s, op, p| (cx.visit(s, op, p), p + 1), args);
+            } else {
+                m.mutate_subsection_ops(pstart, pend, (), |s, op, p, t| (cx.visit(s, Some(op), p), t), args);
+            }
+        }
+    };
+    let mk_ctx = |panic_at: Option<u64>| CbCtx {
+        mdl: &mdl,
+        states: &states,
+        expect: RefCell::new(expect0.clone()),
+        calls: Cell::new(0),
+        panic_at,
+        fired: Cell::new(None),
+        script: script.clone(),
+        errs: RefCell::new(vec![]),
+        pol: pol.clone(),
+        edits: Cell::new(0),
+    };
+    let dry = mk_ctx(None);
+    let mut twin = w.m.clone();
+    let dry_res = catch(|| run(&mut twin, &dry));
+    let calls = dry.calls.get();
+    let panic_at = if calls > 0 && r.chance(5, 6) { Some(r.below(calls)) } else { None };
+    sc.tok(format!("window={}..{},p={},args={:?},vars={},hints={:?},call={}/{}", pstart, pend, single_p, args_kind, list(&sub), hints, panic_at.map(|k| k as i64).unwrap_or(-1), calls));
+    let what = format!(
+        "{}({}) args {:?}{} whose callback fails at invocation {:?} of {}",
+        entry,
+        if entry == "mutate_p" { format!("p = {}", single_p) } else { format!("{}..{}", pstart, pend) },
+        args_kind,
+        if varlist { format!(" vars {:?} hints {:?}", sub, hints) } else { String::new() },
+        panic_at,
+        calls
+    );
+    // the fault-free run must itself be sound (and it shows the container from inside every invocation)
+    if let Err(e) = dry_res {
+        sc.fail(format!("{} - the same call WITHOUT a fault panicked: {}", what, e));
+        return;
+    }
+    for e in dry.errs.borrow().iter() {
+        sc.fail(format!("{} [fault-free run of {}]", e, what));
+    }
+    if !sc.errs.is_empty() {
+        return;
+    }
+    let cx = mk_ctx(panic_at);
+    let m = &mut w.m;
+    let outcome = catch(|| run(m, &cx));
+    if let Some((p, occ)) = cx.fired.get() {
+        sc.stat(if occ { "fault.container.callback_failed_on_occupied_slot" } else { "fault.container.callback_failed_on_empty_slot" });
+        let _ = p;
+    }
+    sc.stat("fault.container.callbacks_inspecting_from_inside");
+    if cx.edits.get() > 0 {
+        sc.stat("fault.container.edits_before_the_fault");
+    }
+    for e in cx.errs.borrow().iter() {
+        sc.fail(format!("{} [{}]", e, what));
+    }
+    // a callback that fails leaves the container as the completed invocations left it
+    let now = scan(&w.m);
+    if let Some(q) = same_prefix(&now, &cx.expect.borrow()) {
+        sc.fail(format!(
+            "C11 after {}: get_pth({}) = {:?} but the edits requested by the completed invocations leave {:?} there",
+            what,
+            q,
+            now.get(q).cloned().flatten(),
+            cx.expect.borrow().get(q).cloned().flatten()
+        ));
+    }
+    if !sc.errs.is_empty() {
+        return;
+    }
+    let a = raw_after(format!("fault.container.{}.callback", entry), &mdl);
+    aftermath(sc, r, &mut w, &a, &what, outcome, len);
+}
+
+/// a trait-level diagonal sweep (Metropolis / heat bath) whose Hamiltonian, generator or temperature fails part-way
+fn sc_container_sweep(r: &mut SplitMix64, sc: &mut Sc) {
+    sc.tok("container");
+    let heat = r.chance(1, 3);
+    let entry = if heat { "make_heatbath_diagonal_update_with_rng_and_state_ref" } else { "make_diagonal_update_with_rng_and_state_ref" };
+    sc.tok(entry);
+    let kind = r.below(5);
+    let class = match kind {
+        0 | 1 => "hamiltonian",
+        2 | 3 => "rng",
+        _ => "beta",
+    };
+    sc.tok(class);
+    let (mdl, mut w) = gen_raw(r, sc);
+    if !sc.res("container before the fault", raw_oracle(&w, &mdl)) {
+        return;
+    }
+    let s0 = w.state.clone();
+    let beta_w = gen_beta(r);
+    let bad = gen_bad_beta(r);
+    let beta = if class == "beta" { bad } else { beta_w };
+    let cutoff = w.m.get_cutoff();
+    let bw = FastOps::make_bond_weights(|_v: &[usize], b: usize, i: &[bool], o: &[bool]| mdl.weight(b, i, o), mdl.nbonds(), |b| mdl.edge_ref(b).0);
+    let sweep = |m: &mut FastOps, state: &mut Vec<bool>, rng: &mut FRng| {
+        let ham = IsingHam { m: &mdl, fused: true };
+        if heat {
+            m.make_heatbath_diagonal_update_with_rng_and_state_ref(cutoff, beta, state, &ham, &bw, rng);
+        } else {
+            m.make_diagonal_update_with_rng_and_state_ref(cutoff, beta, state, &ham, rng);
+        }
+    };
+    // count on a copy
+    let (mut tm, mut ts, mut tr) = (w.m.clone(), w.state.clone(), w.rng.clone());
+    disarm();
+    let (e0, d0) = (evals(), draws());
+    let _ = catch(|| sweep(&mut tm, &mut ts, &mut tr));
+    let (ne, nd) = (evals() - e0, draws() - d0);
+    let what = match class {
+        "hamiltonian" if ne > 0 => {
+            let k = r.below(ne);
+            arm(&HAM_FUSE, Some(k));
+            format!("{}(beta = {}) whose Hamiltonian fails at evaluation {} of {}", entry, rat(beta), k, ne)
+        }
+        "rng" if nd > 0 => {
+            let k = r.below(nd);
+            arm(&RNG_FUSE, Some(k));
+            format!("{}(beta = {}) whose rng fails at draw {} of {}", entry, rat(beta), k, nd)
+        }
+        "beta" => format!("{}(beta = {})", entry, beta_token(beta)),
+        _ => format!("{}(beta = {}) (nothing to fail)", entry, rat(beta)),
+    };
+    sc.tok(format!("cutoff={},beta={},evals={},draws={}", cutoff, beta_token(beta), ne, nd));
+    sc.tok(what.clone());
+    let outcome = {
+        let Raw { m, state, rng } = &mut w;
+        catch(|| sweep(m, state, rng))
+    };
+    disarm();
+    if outcome.is_err() {
+        // the interrupted sweep leaves the state it had propagated to; the string itself still belongs to the p = 0 state
+        let states = propagate(&scan(&w.m), &s0);
+        match states {
+            Ok(states) => {
+                if !states.contains(&w.state) {
+                    sc.fail(format!("C06 after {}: the state buffer {} is no propagated state of the string", what, bits(&w.state)));
+                }
+            }
+            Err(p) => sc.fail(format!("C06 after {}: the p = 0 state no longer meets the op at p={}", what, p)),
+        }
+        w.state = s0.clone();
+        if !sc.errs.is_empty() {
+            return;
+        }
+    } else {
+        let n = w.m.get_n();
+        w.m.set_cutoff(max(cutoff, n + n / 2 + 1));
+    }
+    let a = raw_after(format!("fault.container.{}.{}", if heat { "heatbath_sweep" } else { "diagonal_sweep" }, if class == "beta" { beta_class(beta) } else { class }), &mdl);
+    aftermath(sc, r, &mut w, &a, &what, outcome, cutoff);
+}
+fn sc_container(r: &mut SplitMix64, sc: &mut Sc) {
+    if r.chance(2, 3) {
+        sc_container_callback(r, sc)
+    } else {
+        sc_container_sweep(r, sc)
+    }
+}
+
+// ------------------------------------------------------------------------------------------------------------------
+// mode tempering: a container step in which one replica's step (or the exchange itself) fails
+// ------------------------------------------------------------------------------------------------------------------
+fn replicas_check(sc: &mut Sc, tc: &TC, mdl: &IsingModel, ctx: &str, may_be_dead: bool) -> Option<Vec<bool>> {
+    let mut alive = vec![];
+    for (i, (g, _)) in tc.graph_ref().iter().enumerate() {
+        match probe(g) {
+            Err(e) => {
+                if !may_be_dead {
+                    sc.fail(format!("replica {} is unusable although nothing failed: {} [{}]", i, e, ctx));
+                    return None;
+                }
+                alive.push(false);
+            }
+            Ok(()) => {
+                if !sc.res(&format!("replica {} {}", i, ctx), check_sampler(g, mdl)) {
+                    return None;
+                }
+                alive.push(true);
+            }
+        }
+    }
+    Some(alive)
+}
+fn sc_tempering(r: &mut SplitMix64, sc: &mut Sc) {
+    sc.tok("tempering");
+    let variant = r.below(4);
+    let (entry, class) = match variant {
+        0 => ("timesteps", "replica_beta"),
+        1 => ("timesteps", "rng"),
+        2 => ("tempering_step", "rng"),
+        _ => ("timesteps_sample", "rng"),
+    };
+    sc.tok(entry);
+    sc.tok(class);
+    let mdl = gen_ising(r, None);
+    let nrep = r.range(2, 4) as usize;
+    let mut betas: Vec<f64> = (0..nrep).map(|_| gen_beta(r)).collect();
+    let bad = gen_bad_beta(r);
+    let victim = r.below(nrep as u64) as usize;
+    let seed = r.next();
+    let mut tc = TC::new(FRng(SplitMix64::new(seed)));
+    let mut desc = vec![];
+    for i in 0..nrep {
+        let cutoff = r.range(1, 10) as usize;
+        let st = gen_state(r, mdl.nvars);
+        let s = r.next();
+        let mut g = build_ising(&mdl, cutoff, Some(st.clone()), s);
+        let (rvb, hb) = (r.chance(1, 4), r.chance(1, 4));
+        g.set_run_rvb(rvb);
+        g.set_enable_heatbath(hb);
+        // history of its own before it joins
+        for _ in 0..r.range(0, 6) {
+            g.timestep(betas[i]);
+        }
+        let b = if variant == 0 && i == victim { bad } else { betas[i] };
+        desc.push(format!("{}:{}:{}:{}{}:{}", cutoff, bits(&st), s, rvb as u8, hb as u8, beta_token(b)));
+        if let Err(e) = tc.add_qmc_stepper(g, b) {
+            sc.fail(format!("replica {} of the same model refused: {}", i, e));
+            return;
+        }
+    }
+    sc.tok(mdl.token());
+    sc.tok(format!("seed={},replicas={}", seed, desc.join("/")));
+    if variant != 0 {
+        for _ in 0..r.range(1, 4) {
+            tc.timesteps(1);
+            tc.tempering_step();
+        }
+    }
+    if replicas_check(sc, &tc, &mdl, "before the fault", false).is_none() {
+        return;
+    }
+    let (swap_f, samp_f, tsteps) = (r.range(1, 3) as usize, r.range(1, 3) as usize, r.range(2, 6) as usize);
+    let call = |tc: &mut TC| match variant {
+        0 | 1 => tc.timesteps(1),
+        2 => tc.tempering_step(),
+        _ => {
+            tc.timesteps_sample(tsteps, swap_f, samp_f);
+        }
+    };
+    let what = if variant == 0 {
+        format!("TemperingContainer::timesteps(1) with beta = {} on replica {}", beta_token(bad), victim)
+    } else {
+        let mut twin = tc.clone();
+        let d = count_draws(move || call(&mut twin));
+        if d == 0 {
+            format!("TemperingContainer::{} (no draw to fail)", entry)
+        } else {
+            let k = r.below(d);
+            arm(&RNG_FUSE, Some(k));
+            format!("TemperingContainer::{} whose rngs fail at draw {} of {}", entry, k, d)
+        }
+    };
+    sc.tok(what.clone());
+    let cutoffs_before: Vec<usize> = tc.graph_ref().iter().map(|(g, _)| g.get_cutoff()).collect();
+    let outcome = catch(|| call(&mut tc));
+    disarm();
+    let panicked = outcome.is_err();
+    if panicked {
+        sc.nt = true;
+    }
+    let key = format!("fault.tempering.{}.{}", entry, if variant == 0 { beta_class(bad) } else { class });
+    let ctx = match &outcome {
+        Err(e) => format!("after {} - caught panic: {}", what, clip(e).chars().take(120).collect::<String>()),
+        Ok(()) => format!("after {}", what),
+    };
+    let alive = match replicas_check(sc, &tc, &mdl, &ctx, panicked) {
+        Some(a) => a,
+        None => return,
+    };
+    let dead = alive.iter().filter(|a| !**a).count();
+    sc.stat(&format!("{}.{}", key, if !panicked { "returned" } else if dead > 0 { "replica_unusable" } else { "all_replicas_survived" }));
+    if dead > 0 {
+        sc.stat("fault.unusable");
+    } else if panicked {
+        sc.stat("fault.survived");
+    } else {
+        sc.stat("fault.returned");
+    }
+    for (i, (g, _)) in tc.graph_ref().iter().enumerate() {
+        if alive[i] && g.get_cutoff() < cutoffs_before[i] {
+            sc.fail(format!("C12 cutoff of replica {} shrank from {} to {} [{}]", i, cutoffs_before[i], g.get_cutoff(), ctx));
+            return;
+        }
+    }
+    if variant == 0 {
+        betas[victim] = gen_beta(r);
+    }
+    // continued use: the surviving replicas one by one, and the container-level calls that do not need what was lost
+    for round in 0..FOLLOW_UP {
+        for i in 0..nrep {
+            if !alive[i] {
+                continue;
+            }
+            let c = gen_icall(r);
+            let b = betas[i];
+            let before = tc.graph_ref()[i].0.get_cutoff();
+            let res = catch(|| icall(&mut tc.graph_mut()[i].0, c, b));
+            match res {
+                Err(e) if panicked && pool_exhausted(&e) => {
+                    sc.stat(&format!("{}.pool_exhausted_later", key));
+                    sc.stat("fault.pool_exhausted_later");
+                    return;
+                }
+                Err(e) => {
+                    sc.fail(format!("valid step {:?} of replica {} (round {}) {} panicked: {}", c, i, round, ctx, e));
+                    return;
+                }
+                Ok(full) => {
+                    let g = &tc.graph_ref()[i].0;
+                    if let Err(e) = probe(g) {
+                        sc.fail(format!("valid step {:?} of replica {} (round {}) {} left it unusable: {}", c, i, round, ctx, e));
+                        return;
+                    }
+                    if !sc.res(&format!("valid step {:?} of replica {} (round {}) {}", c, i, round, ctx), check_sampler(g, &mdl)) {
+                        return;
+                    }
+                    if g.get_cutoff() < before {
+                        sc.fail(format!("C12 cutoff of replica {} shrank from {} to {} [round {} {}]", i, before, g.get_cutoff(), round, ctx));
+                        return;
+                    }
+                    if full && !sc.res(&format!("valid step {:?} of replica {} (round {}) {}", c, i, round, ctx), cutoff_rule(g.get_cutoff(), g.get_n())) {
+                        return;
+                    }
+                }
+            }
+        }
+        if dead == 0 && variant != 0 && round % 5 == 4 {
+            // `timesteps` needs no container rng; `tempering_step` does and may have lost it: whatever it does, it must not
+            // leave a replica inconsistent
+            let r1 = catch(|| tc.timesteps(1));
+            match r1 {
+                Err(e) if panicked && pool_exhausted(&e) => {
+                    sc.stat("fault.pool_exhausted_later");
+                    return;
+                }
+                Err(e) => {
+                    sc.fail(format!("TemperingContainer::timesteps(1) (round {}) {} panicked: {}", round, ctx, e));
+                    return;
+                }
+                Ok(()) => {}
+            }
+            if replicas_check(sc, &tc, &mdl, &format!("after container timesteps(1) (round {}) {}", round, ctx), false).is_none() {
+                return;
+            }
+            let r2 = catch(|| tc.tempering_step());
+            if r2.is_err() {
+                sc.stat(&format!("{}.exchange_unusable_later", key));
+                if !panicked {
+                    sc.fail(format!("TemperingContainer::tempering_step (round {}) {} panicked: {}", round, ctx, r2.unwrap_err()));
+                    return;
+                }
+            }
+            if replicas_check(sc, &tc, &mdl, &format!("after container tempering_step (round {}) {}", round, ctx), false).is_none() {
+                return;
+            }
+        }
+    }
+    sc.stat("fault.continued_ok");
+}
+
+// ------------------------------------------------------------------------------------------------------------------
+// driver: one thread per scenario, panic guard around it
+// ------------------------------------------------------------------------------------------------------------------
+fn run_scenario(name: &str, k: usize, seed: u64, f: fn(&mut SplitMix64, &mut Sc), totals: &mut BTreeMap<String, u64>, counts: &mut (u64, u64)) {
+    let label = format!("{} scenario {}", name, k);
+    let handle = std::thread::Builder::new()
+        .name(label.clone())
+        .stack_size(32 << 20)
+        .spawn(move || {
+            let mut r = SplitMix64::new(seed);
+            let mut sc = Sc::new();
+            if let Err(e) = catch(|| f(&mut r, &mut sc)) {
+                disarm();
+                sc.fail(format!("the library panicked outside an individually guarded call: {}", e));
+            }
+            sc
+        })
+        .expect("spawn");
+    let sc = match handle.join() {
+        Ok(sc) => sc,
+        Err(_) => {
+            let mut sc = Sc::new();
+            sc.tok(name);
+            sc.tok("scenario");
+            sc.tok(k);
+            sc.fail("the scenario thread died".into());
+            sc
+        }
+    };
+    for (key, v) in sc.stats.iter() {
+        *totals.entry(key.clone()).or_insert(0) += v;
+    }
+    counts.0 += 1;
+    let res = if sc.errs.is_empty() {
+        Ok(())
+    } else {
+        counts.1 += 1;
+        Err(sc.errs.join("; "))
+    };
+    let mut input = sc.input.join(" ");
+    if input.is_empty() {
+        input = label.replace(' ', "_");
+    }
+    emit(sc.nt, &format!("{} #{}", input.replace('|', "/"), k), "ok", Some(res));
+}
+
+fn main() {
+    quiet_panics();
+    let a = args();
+    // (mode, scenario, scenarios in the quick tier, in the thorough tier)
+    let table: Vec<(&str, fn(&mut SplitMix64, &mut Sc), usize, usize)> = vec![
+        ("ising", sc_ising, 400, 4000),
+        ("generic", sc_generic, 300, 3000),
+        ("container", sc_container, 500, 5000),
+        ("tempering", sc_tempering, 80, 800),
+    ];
+    let mut totals = BTreeMap::new();
+    let mut counts = (0u64, 0u64);
+    let mut known = false;
+    for (name, f, quick, thorough) in table.iter() {
+        if a.mode != "all" && a.mode != *name {
+            continue;
+        }
+        known = true;
+        let tag = name.bytes().fold(0u64, |h, b| h.wrapping_mul(131).wrapping_add(b as u64));
+        let mut seeds = SplitMix64::new(SplitMix64::new(a.seed.wrapping_mul(0x2545_F491_4F6C_DD1D) ^ tag.wrapping_mul(0x9E6C_63D0_676A_9A99)).next());
+        let reps = if a.thorough { *thorough } else { *quick };
+        for k in 0..reps {
+            run_scenario(name, k, seeds.next(), *f, &mut totals, &mut counts);
+        }
+    }
+    if !known {
+        eprintln!("unknown mode {}", a.mode);
+        std::process::exit(2);
+    }
+    for (k, v) in totals.iter() {
+        stat(k, v);
+    }
+    stat("cases", counts.0);
+    stat("oracle_fail", counts.1);
+}
